@@ -1482,6 +1482,12 @@ def _share_detach(ctx, v, d, var):
         if sends and rcu and sends[0][0] < rcu[0]:
             probs.append("upstream told before the sink was removed")
         empt = [a for (_, a, _) in guards_before(p, len(p.events)) if a[0] == "bool" and a[1][0] == "call" and a[1][2].endswith("::is_empty")]
+        if not empt and not found:
+            # this sink is not on the list any more (the source ended, or it was detached already): nothing to do, nothing is sent
+            kinds.add("not-attached")
+            if sends:
+                probs.append("upstream told although this sink was not attached")
+            continue
         if not empt:
             probs.append("emptiness of the list not tested")
             continue
@@ -1493,7 +1499,7 @@ def _share_detach(ctx, v, d, var):
             kinds.add("others-remain")
             if sends:
                 probs.append("upstream told although sinks remain")
-    ok = not probs and kinds == {"last", "others-remain"}
+    ok = not probs and kinds - {"not-attached"} == {"last", "others-remain"}
     ctx.ob("REL-xor", v.key(d, var, "REL-xor", "detach-then-maybe-dispose"), ok,
            "detach removes the sink first and disposes upstream exactly when the list became empty" if ok else "; ".join(sorted(set(probs))[:3]) or str(kinds), v.loc(d))
 
@@ -3701,20 +3707,25 @@ def C17(ctx, model, tier, models):
         for (b, var, p, i, e, hint) in panic_sites(v):
             cls, ok, why = discharge_panic(v, b, var, p, i, e, hint, tbcells)
             k = (b, e.site, hint)
+            # is the site reached only when share's list was seen empty (the last detach)?
+            when_last = any(a[0] == "bool" and a[2] is True and a[1][0] == "call" and a[1][2].endswith("::is_empty") for (_, a, _) in guards_before(p, i))
             cur = per_site.get(k)
             if cur is None:
-                per_site[k] = [cls, ok, why, e, {var}]
+                per_site[k] = [cls, ok, why, e, {var}, when_last]
             else:
                 cur[4].add(var)
+                cur[5] = cur[5] and when_last
                 if not ok and cur[1]:
                     cur[0], cur[1], cur[2] = cls, ok, why
-        for (b, site, hint), (cls, ok, why, e, arms) in sorted(per_site.items(), key=lambda kv: str(kv[0])):
+        for (b, site, hint), (cls, ok, why, e, arms, when_last) in sorted(per_site.items(), key=lambda kv: str(kv[0])):
             total += 1
             classes[cls] = classes.get(cls, 0) + 1
             armtxt = "".join(sorted(VSHORT.get(a, "-") for a in arms))
             key = "%s:%s:%s:%s" % (v.name, v.label(b), cls, armtxt)
             if v.family == "share" and cls == "K-init" and not ok and v.op.roles.get(b) == "DOWN":
-                key = "share:DOWN:K-init:later-sink-published-before-store"
+                # KF-6 is recorded per arm set and per guard: an expect that moves out of the last-detach branch, or a new one in
+                # another arm, is a different site and is reported
+                key = "share:DOWN.%s:K-init:later-sink-published-before-store%s" % (armtxt, ":on-last-detach" if when_last else "")
             if v.family == "combine":
                 key = "%s:%s:%s:%s" % (v.name, v.generic_label(b), cls, armtxt)
             ctx.ob("CEN-P", key, ok, "%s: %s" % (hint, why), e.loc)
